@@ -122,6 +122,10 @@ def random_case(rng, tier):
             if action['act'] == 'complete':
                 action.update(fut=order[nxt % n_futures], how='value', v=f'v{order[nxt % n_futures]}')
                 nxt += 1
+    if rng.random() < 0.12:
+        # whoever steps the process gives up while it sits paused (the stepping task is cancelled); it is played and picked up
+        # again later: the wake-up it got in between must not be lost
+        schedule.append({'act': 'cancel_stepper', 'only_if_paused': True, 'at': rng.randint(0, ticks + 3)})
     for action in schedule:
         # pauses are also requested from inside the listener notifications of state transitions (e.g. of the very
         # transition into WAITING); wake-ups and plays stay between loop callbacks
